@@ -233,6 +233,9 @@ def run(ctx):
         except Exception:  # noqa
             continue
         t = pd.Series(55 + 20 * np.sin(np.arange(len(idx)) / 8760 * 6.283), index=idx, name="temperature")
+        if k % 3 == 0:
+            # every hour of every weekend day (or weekday) reads exactly 0 degF: a finite temperature like any other
+            t[(idx.dayofweek >= 5) if k % 2 == 0 else (idx.dayofweek < 5)] = 0.0
         for _ in range(rng.randrange(0, 4)):
             a = rng.randrange(0, max(1, len(idx) - 72))
             t.iloc[a:a + 24 * rng.choice([1, 2, 3])] = np.nan
